@@ -858,6 +858,9 @@ def apply_op(w: World, op: list, t: List[int]):
         t[0] += 1
     elif kind == "step":
         w.env.step(op[1] % w.env.action_space.n)
+    elif kind == "gstep":
+        # the scripted-agents loop `PrimaiteGame.step()` (the proxy agent replays the action stored last)
+        w.env.game.step()
     elif kind == "ping":
         w.nodes[op[1]].ping(w.ip[op[2]], pings=op[3] if len(op) > 3 else 1)
     elif kind == "arp":
@@ -1254,6 +1257,46 @@ def run_impl(case: dict, inventory=None) -> dict:
                 # not a violation (see C18_air_two_names_counterexample): the hz is above the capacity of its smaller name
                 bump("hz-load-above-the-smaller-of-two-name-capacities")
 
+    def step_checks(oi: int, forest: List[dict]):
+        """The tick of the property is the STEP of the environment (`PrimaiteGymEnv.step` / `PrimaiteGame.step`): looked at as a
+        whole and WITHOUT relying on where the recorder saw `Network.pre_timestep` — (1) the first thing a step does to the network
+        is the reset, once: no frame is sent and no interface toggled before it, and it is not repeated in mid-step; (2) the first
+        send of the step on each link / channel finds load 0; (3) the bytes carried in the whole step (agents' actions and
+        `apply_timestep` together, summed by the rig from the transmissions) stay within the capacity."""
+        bump("steps-checked")
+        resets = [i for i, e in enumerate(forest) if e["t"] == "T"]
+        traffic_before = [e["t"] for e in forest[:resets[0]]] if resets else [e["t"] for e in forest]
+        if len(resets) != 1 or resets[0] != 0:
+            what = ("no-reset" if not resets else "reset-not-first" if resets[0] != 0 else "reset-repeated")
+            oracle.append({"kind": "step-does-not-start-with-the-tick-reset", "op": oi, "medium": "any", "what": what,
+                           "resets": len(resets), "events_before_the_reset": traffic_before[:6]})
+        first = {}
+        total = {}
+
+        def visit(fr):
+            for e in fr:
+                if e["t"] in ("S", "W"):
+                    key = ("wired" if e["t"] == "S" else "wireless", e["k"])
+                    if key not in first:
+                        first[key] = e.get("load0")
+                    if e["tx"] and (e["acc"] or e.get("aborted")) or (e["t"] == "W" and e["tx"]):
+                        total[key] = total.get(key, 0) + (e["sa"] or 0)
+                    visit(e["children"])
+                elif e.get("children"):
+                    visit(e["children"])
+        visit(forest)
+        for key, l0 in sorted(first.items()):
+            bump("steps:first-send-on-a-link-or-channel")
+            if l0:
+                oracle.append({"kind": "load-not-zero-at-start-of-step", "op": oi, "medium": key[0], "k": key[1], "load": l0})
+        for key, v in sorted(total.items()):
+            cap = lcap[key[1]] if key[0] == "wired" else max(oncaps(key[1]), default=0)
+            if v > cap:
+                oracle.append({"kind": "carried-in-a-step-exceeds-bandwidth", "op": oi, "medium": key[0], "k": key[1], "carried": v,
+                               "cap": cap})
+            if v:
+                bump("steps:links-or-channels-that-carried-data")
+
     prev_load = {}
 
     def monotone(oi: int):
@@ -1324,6 +1367,8 @@ def run_impl(case: dict, inventory=None) -> dict:
                 if rec.broken:
                     end_of_op_checks(oi, "after-exception")
                     break
+            if op[0] in ("step", "gstep"):
+                step_checks(oi, forest)
             seg: List[dict] = []
             for e in forest:
                 if e["t"] not in ("T", "B", "C"):
@@ -1370,7 +1415,7 @@ def run_impl(case: dict, inventory=None) -> dict:
                         cvals[c] |= set(oncaps(c))
                     lines.append("dump")
                     impl.append(e["after"])
-            if seg or op[0] not in ("tick", "step", "setbw", "setcap"):
+            if seg or op[0] not in ("tick", "step", "gstep", "setbw", "setcap"):
                 segment(oi, seg, dump(w, ccap))
             sync_caps()
             monotone(oi)
@@ -1575,7 +1620,8 @@ def gen_scenario_case(rng: Rng, max_steps: int = 30) -> dict:
     nbw = rng.range(1, 4)
     bw = [rng.choice([100.0, 100.0, 10.0, 1.0, 0.05, 0.01, gen_bw(rng, True), 40.0]) for _ in range(nbw)]
     return {"scenario": {"file": rng.choice(SCENARIOS), "seed": rng.range(1, 10 ** 6), "bw": bw},
-            "ops": [["step", rng.below(10 ** 6) if rng.chance(2, 3) else 0] for _ in range(rng.range(8, max_steps))]}
+            "ops": [(["gstep"] if rng.chance(1, 4) else ["step", rng.below(10 ** 6) if rng.chance(2, 3) else 0])
+                    for _ in range(rng.range(8, max_steps))]}
 
 
 def f9_probe() -> dict:
